@@ -1,5 +1,5 @@
 (* Property C03 — next refers to the most specific strictly more general definition. Property theorems only. *)
-From Y2 Require Import Model.Registry Spec.Dispatch Proofs.SpecProofs.
+From Y2 Require Import Model.Registry Model.Compile Spec.Dispatch Proofs.Interfaces Proofs.SpecProofs Proofs.CorollaryProofs.
 
 Theorem C03_next_runs : forall R defs k i,
   spec_next R defs k = Run i <->
@@ -21,3 +21,13 @@ Theorem C03_next_ambiguous : forall R defs k,
   forall i, ~ best_next R defs k i.
 Proof. exact spec_next_Ambiguous. Qed.
 Print Assumptions C03_next_ambiguous.
+
+(* The next that update computes for definition i of method mi (model of build_dispatch_tables' "assigning next")
+   is the specification's, for every well-formed registry: a definition, the not-implemented stub or the ambiguity stub.
+   compile is a function of the catalogs only, so every update recomputes it (see C07). *)
+Theorem C03_next_correct : forall R C mi m i,
+  wf_registry R -> compile R = Ok C -> nth_error (r_methods R) mi = Some m -> i < length (m_defs m) ->
+  nth i (t_nexts (nth mi (o_tables C) (mk_ct [] [] [] (mk_rep 0 0 0 0 0 0) []))) CNi
+  = cell_of_outcome (spec_next R (meth_defs R m) i).
+Proof. exact next_correct. Qed.
+Print Assumptions C03_next_correct.
